@@ -10,6 +10,7 @@ import (
 	"path/filepath"
 	"sort"
 	"strings"
+	"sync/atomic"
 )
 
 // SnapEntry is one filesystem entry of a snapshot.
@@ -40,7 +41,7 @@ func Snap(dir string) (Snapshot, error) {
 		if err != nil {
 			return err
 		}
-		e := SnapEntry{Path: filepath.ToSlash(rel), Mode: uint32(info.Mode().Perm())}
+		e := SnapEntry{Path: filepath.ToSlash(rel), Mode: uint32(info.Mode() & (os.ModePerm | os.ModeSticky | os.ModeSetgid | os.ModeSetuid))}
 		switch {
 		case info.Mode().IsDir():
 			e.Kind = "d"
@@ -138,6 +139,12 @@ func NewJail(base string, makeTarget bool) (*Jail, error) {
 		if err := os.Mkdir(j.Target, 0o755); err != nil {
 			return nil, err
 		}
+		// the target's own mode rotates (a private, a group-writable, a sticky directory ...): a
+		// callee that "normalises" the mode of a directory it did not create is then visible
+		m := jailModes[jailSeq.Add(1)%uint64(len(jailModes))]
+		if m != 0o755 {
+			os.Chmod(j.Target, m)
+		}
 	}
 	os.MkdirAll(filepath.Join(deep, "sentinel-a"), 0o755)
 	os.WriteFile(filepath.Join(deep, "sentinel-a", "keep"), []byte("keep"), 0o644)
@@ -147,6 +154,9 @@ func NewJail(base string, makeTarget bool) (*Jail, error) {
 	os.MkdirAll(filepath.Join(deep, "targetX"), 0o755)
 	return j, nil
 }
+
+var jailSeq atomic.Uint64
+var jailModes = []os.FileMode{0o755, 0o700, 0o775, 0o755 | os.ModeSticky | 0o022, 0o750}
 
 // Remove deletes the jail.
 func (j *Jail) Remove() { os.RemoveAll(j.Root) }
